@@ -438,6 +438,9 @@ int main(int argc, char** argv)
         for (long idx = from; idx < from + count; ++idx)
         {
             sim::g_cur_run = idx;
+#ifdef SIM_ASAN
+            std::printf("S %ld\n", idx);  // a sanitizer runtime that exits without our crash line still names the run
+#endif
             const auto rs = run_seed_of(seed, prop, idx);
             c19_seed = rs;
             c19_thorough = thorough;
